@@ -340,10 +340,10 @@ TRUSTED_BASE_COMMON = [
 
 
 def correspond(run, stream, cases, canon=lambda r: r, nontrivial=lambda c, r: True, describe=lambda c: c,
-               known=lambda c, r, v: None, want_samples=3):
+               known=lambda c, r, v: None, want_samples=3, env=None):
     """Run `cases` (request lines) through implementation and model, compare, judge by the oracle.
     Returns list of (case, impl_reply, model_reply, verdict)."""
-    impl = run_lines([ZVH], cases)
+    impl = run_lines([ZVH], cases, env=env)
     combined = [c + " | " + r for c, r in zip(cases, impl)]
     mo = run_lines([ZVM], combined)
     res = []
